@@ -1368,6 +1368,9 @@ impl Scenario for Violations {
             // publish of another thread is waiting right behind that event, built with the batch
             // driver (the window is three or more deviations away from the default schedule)
             .chain(["client-only-method", "unimplemented-class"].iter().map(|k| json!({"kind": k, "publisher": "batch"})))
+            // a server that keeps talking behind its CloseOk: whatever the I/O thread still acts
+            // on in that state is a violation like any other
+            .chain(["unopened-channel", "client-only-method", "heartbeat"].iter().map(|k| json!({"kind": "behind-close-ok", "what": k})))
             .collect()
     }
     fn bound(&self, tier: &str, p: &Value) -> usize {
@@ -1392,8 +1395,17 @@ impl Scenario for Violations {
         let mut broker = StdBroker::new(Handshake::default());
         broker.strict_content = false;
         let last = chain(&mut broker, "valid", vec![deliver(1, "ctag-1-2", 50), header(1, 1, false), body(1, &[6])], None, Some((1, 2)));
-        let (frames, _, _) = violation_frames(&kind);
-        chain(&mut broker, "bad", frames, Some(&last), Some((1, 2)));
+        let behind = kind == "behind-close-ok";
+        if behind {
+            let f = match p["what"].as_str().unwrap() {
+                "heartbeat" => AMQPFrame::Heartbeat(0),
+                k => violation_frames(k).0.remove(0),
+            };
+            broker.close_behaviour = vh::sim::broker::CloseBehaviour::CloseOkThen(vec![f]);
+        } else {
+            let (frames, _, _) = violation_frames(&kind);
+            chain(&mut broker, "bad", frames, Some(&last), Some((1, 2)));
+        }
         let mut cfg = EnvConfig::default();
         cfg.deliver_cuts = true;
         Built {
@@ -1422,8 +1434,8 @@ impl Scenario for Violations {
                 };
                 let consumer = ch.basic_consume("q", ConsumerOptions::default()).expect("consume");
                 let rx = consumer.receiver().clone();
-                if kind == "huge-body-size" {
-                    // the connection stays up (the content never completes)
+                if kind == "huge-body-size" || behind {
+                    // the connection stays up (the content never completes / nothing is wrong yet)
                     if let Ok(m) = ctx.recv("consumer", &rx) {
                         ctx.log(format!("consumer <- {}", consumer_msg_name(&m)));
                     }
@@ -1444,8 +1456,20 @@ impl Scenario for Violations {
     fn check(&self, p: &Value, o: &Outcome, _w: &World) -> Vec<(String, String)> {
         let mut v = Vec::new();
         let kind = p["kind"].as_str().unwrap();
-        let (_, want, code) = violation_frames(kind);
         let main = o.logs.get("main").cloned().unwrap_or_default();
+        if kind == "behind-close-ok" {
+            // did the I/O thread still take a frame after the CloseOk? (it has gone before the
+            // frame arrives if the two come in separate reads)
+            let pos = o.io_events.iter().position(|e| matches!(e, vh::sim::world::IoEvent::Frame(AMQPFrame::Method(0, AMQPClass::Connection(pconnection::AMQPMethod::CloseOk(_))))));
+            let acted = pos.map(|k| o.io_events[k + 1..].iter().any(|e| matches!(e, vh::sim::world::IoEvent::Frame(_)))).unwrap_or(false);
+            let close = main.iter().find(|l| l.starts_with("close -> ")).cloned().unwrap_or_default();
+            let ok = if acted { close.starts_with("close -> Err(") && close != "close -> Err(IoThreadPanic)" } else { close == "close -> Ok" };
+            if !ok {
+                v.push(("violations:frame-behind-close-ok".into(), format!("{} behind CloseOk, taken by the I/O thread: {}; {}", p["what"], acted, close)));
+            }
+            return v;
+        }
+        let (_, want, code) = violation_frames(kind);
         let close = main.iter().find(|l| l.starts_with("close -> ")).map(|l| l.trim_start_matches("close -> ").to_string());
         match close {
             None => v.push(("violations:no-close-result".into(), format!("{:?}", main))),
